@@ -174,6 +174,8 @@ def graph(rng, shape):
         fs = [F(0, [fx()]), F(1, []), F(2, [fx(), fx()])]
     elif shape == "single":
         fs = [F(0, [fx()])]
+    elif shape == "indeproot":          # p(d) p(x|d) p(b): an independent root next to a dependent pair
+        fs = [F(0, [fx()]), F(1, [fn(0), fx()]), F(2, [fx()])]
     elif shape == "random":
         n = rng.randint(2, 6)
         fs = []
@@ -202,7 +204,7 @@ def graph(rng, shape):
     return fs, 1 + max(f["name"] for f in fs)
 
 
-SHAPES = ["pair", "chain", "hier", "hier5", "mlp2", "mlp3h", "twoarg", "unset", "unset2", "cycle", "indep", "single", "random"]
+SHAPES = ["pair", "chain", "hier", "hier5", "mlp2", "mlp3h", "twoarg", "unset", "unset2", "cycle", "indep", "indeproot", "single", "random"]
 PARTS = ["none", "leaves", "allbut1", "all", "roots", "random"]
 STYLES = ["one-kw", "one-pos", "seq-kw", "grouped-mixed"]
 
@@ -288,7 +290,7 @@ def make_steps(rng, book, fix, style):
         if not reduced and cur and rng.random() < 0.15:
             # JointDistribution._condition silently ignores a keyword that is no parameter of any factor
             kwl.insert(rng.randint(0, len(kwl)), [UNKNOWN, cur[0]])
-        steps.append({"args": args, "kw": kwl})
+        steps.append({"args": args, "kw": kwl, "pre_params": list(cur)})
         book.fixed |= set(g)
         reduced = True
     return steps
@@ -373,15 +375,19 @@ def observe_stage(cuqi, o, names):
     return [k, ps, c]
 
 
-def drive(cuqi, start, names, vals, steps, evals):
-    """run the conditioning calls and the evaluations on the real objects"""
+def drive(cuqi, start, names, vals, steps, evals, keep=None):
+    """run the conditioning calls and the evaluations on the real objects; `keep` collects every object of the history"""
     obs, o = [], start
+    if keep is not None:
+        keep.append(start)
     for st in steps:
         try:
             o = do_call(o, names, vals, st)
             if o is None:
                 raise TypeError("conditioning returned None")
             obs.append(observe_stage(cuqi, o, names))
+            if keep is not None:
+                keep.append(o)
         except Exception as e:
             obs.append(None)
             o = None
@@ -394,6 +400,25 @@ def drive(cuqi, start, names, vals, steps, evals):
             except Exception as e:
                 outs.append(None)
     return o, obs, outs
+
+
+def reevaluate_earlier(objs, steps, names, vals, total):
+    """after the whole history: every EARLIER object (parent joint, intermediate objects) must still evaluate to the joint
+    log-density at the complete assignment -- deriving a child must not change its parent (no shared mutable state)"""
+    for i, st in enumerate(steps):
+        if i >= len(objs) - 1:
+            break
+        ps = st.get("pre_params")
+        if ps is None:
+            continue
+        try:
+            out = num(objs[i].logd(**{names[v]: np.array(vals[v]) for v in ps}))
+        except Exception as e:
+            return "object %d of the history (parameters %s) raised %r when re-evaluated after its children were derived" % (i, [names[v] for v in ps], e)
+        if out != total:
+            return ("object %d of the history (parameters %s) re-evaluated after its children were derived gives %s, it gave / must give %s: "
+                    "conditioning changed its parent" % (i, [names[v] for v in ps], float(out), total))
+    return None
 
 
 # ------------------------------------------------------------------------------------------
@@ -531,10 +556,14 @@ def build_case(ctx, cuqi, strict, shape, part, style, rng, variant="joint"):
             return None
         final = o
     else:
-        final, obs, outs = drive(cuqi, start, names, vals, steps, evals)
+        objs = []
+        final, obs, outs = drive(cuqi, start, names, vals, steps, evals, keep=objs)
+        shared = reevaluate_earlier(objs, steps, names, vals, total) if all(ob is not None for ob in obs) else None
     # ---- independent oracle: the property itself ----
     fail, sig = None, ""
-    if any(ob is None for ob in obs):
+    if variant != "problem" and shared:
+        fail, sig = shared, "shared-state|parent-changed-by-conditioning|%s" % shape
+    elif any(ob is None for ob in obs):
         fail = "conditioning call %d raised on a well-formed history" % len(obs)
         sig = "condition-raised|%s" % shape
     else:
@@ -750,6 +779,155 @@ def slots_case(ctx, cuqi, rng):
                 cell="poly/slots", kind="DECISION", impl_fail=fail, signature="conditioning-variables-order" if fail else "")
 
 
+
+# ------------------------------------------------------------------------------------------
+# branching histories: all objects kept alive, earlier objects re-evaluated after every step, several
+# children from the same parent (both orders, identical conditioning repeated)
+# ------------------------------------------------------------------------------------------
+HSHAPES = ["indeproot", "indep", "pair", "chain", "hier", "hier5", "mlp2", "mlp3h", "twoarg", "unset", "random"]
+HKINDS = ["dist", "posterior", "mlp", "joint"]
+
+
+def subset_for_kind(rng, fs, n, kind):
+    """a set of variables whose fixing sends the joint through the wanted reduction branch (None if the graph has none)"""
+    import itertools as it
+    cands = []
+    for k in range(1, n + 1):
+        for sub in it.combinations(range(n), k):
+            b = Book(fs, [])
+            b.fixed = set(sub)
+            if len(b.params()) == 0:
+                continue
+            if b.kind() == kind:
+                cands.append(list(sub))
+    if not cands:
+        return None
+    if kind == "dist":
+        # prefer the case where the remaining distribution received NO keyword (an independent factor): its object is
+        # the one a careless _condition would share with the parent
+        pref = [c for c in cands if not (deps([f for f in fs if f["name"] not in c][0]) & set(c))]
+        if pref and rng.random() < 0.8:
+            cands = pref
+    return rng.choice(cands)
+
+
+def full_call(rng, ps, positional=False):
+    if positional:
+        return {"args": list(ps), "kw": []}
+    kwv = list(ps); rng.shuffle(kwv)
+    return {"args": [], "kw": [[v, v] for v in kwv]}
+
+
+def history_program(rng, fs, n, kind, order):
+    """list of ops; ("cond", src, call, fixed-set-after) / ("eval", src, call).  Object 0 = the joint."""
+    S = subset_for_kind(rng, fs, n, kind)
+    if S is None:
+        return None
+    S2 = rng.sample(range(n), rng.randint(1, max(1, n - 1)))
+    if sorted(S2) == sorted(S) and n > 1:
+        S2 = [v for v in range(n) if v not in S][:1] or S2
+    books = [Book(fs, [])]              # bookkeeping per live object
+    reduced = [False]
+    ops = []
+
+    def params(i):
+        return books[i].params()
+
+    def eval_all():
+        for i in range(len(books)):
+            ops.append(("eval", i, full_call(rng, params(i), positional=rng.random() < 0.3)))
+
+    def cond(src, sub):
+        sub = [v for v in sub if v in params(src)]
+        b = Book(fs, [])
+        b.fixed = set(books[src].fixed) | set(sub)
+        kwv = list(sub); rng.shuffle(kwv)
+        ops.append(("cond", src, {"args": [], "kw": [[v, v] for v in kwv]}))
+        books.append(b); reduced.append(True)
+        eval_all()
+        return len(books) - 1
+
+    eval_all()
+    seq = [S, S, S2] if order == 0 else [S2, S, S]
+    kids = [cond(0, sub) for sub in seq]
+    # a grand-child from a child that can still be conditioned (not a Posterior: name inference)
+    for kdx in kids:
+        b = books[kdx]
+        if b.params() and not (b.kind() == "posterior"):
+            rest = b.params()
+            cond(kdx, rng.sample(rest, rng.randint(1, len(rest))))
+            break
+    # the parent once more, the identical conditioning a third time
+    cond(0, S)
+    return ops, [sorted(b.fixed) for b in books]
+
+
+def run_history(cuqi, start, names, vals, ops):
+    """execute a program on the real objects; returns per-op observation (stage obs for cond, value for eval)"""
+    objs, res = [start], []
+    for op in ops:
+        if op[0] == "cond":
+            try:
+                o = do_call(objs[op[1]], names, vals, op[2])
+                if o is None:
+                    raise TypeError("conditioning returned None")
+                res.append(observe_stage(cuqi, o, names))
+            except Exception:
+                o = None
+                res.append(None)
+            objs.append(o)
+            if o is None:
+                break
+        else:
+            try:
+                res.append(num(do_call(objs[op[1]].logd, names, vals, op[2])))
+            except Exception:
+                res.append(None)
+    return res
+
+
+def history_oracle(ops, res, total):
+    newest = 0
+    for op, r in zip(ops, res):
+        if op[0] == "cond":
+            newest += 1
+            if r is None:
+                return "conditioning object %d raised on a well-formed call" % op[1], "condition-raised|history"
+        else:
+            if r != total:
+                what = "earlier object %d re-evaluated after %d later object(s) were derived" % (op[1], newest - op[1]) if op[1] < newest else "newest object %d" % op[1]
+                return ("%s gives %s, the joint log-density at the complete assignment is %s" % (what, None if r is None else float(r), total),
+                        "shared-state|earlier-object-changed" if op[1] < newest else "value|history-child")
+    return None, ""
+
+
+def chop(vals, op, r):
+    if op[0] == "cond":
+        return "(OpCond %s %s %s)" % (cnat(op[1]), ccall(vals, op[2]), cstage(r))
+    return "(OpEval %s %s %s)" % (cnat(op[1]), ccall(vals, op[2]), copt(r, cq))
+
+
+def history_case(ctx, cuqi, strict, shape, kind, order, rng):
+    PD = polydist_class(cuqi)
+    fs, n = graph(rng, shape)
+    prog = history_program(rng, fs, n, kind, order)
+    if prog is None:
+        return None
+    ops, fixed_sets = prog
+    names = rng.sample(VARNAMES, n)
+    vals = {f["name"]: rand_vec(rng, f["dim"]) for f in fs}
+    fvalue = {f["name"]: factor_value_py(f, vals) for f in fs}
+    total = sum(fvalue.values())
+    start = cuqi.distribution.JointDistribution(*[PD(f, names) for f in fs])
+    res = run_history(cuqi, start, names, vals, ops)
+    fail, sig = history_oracle(ops, res, total)
+    meta = {"family": "poly", "variant": "history", "shape": shape, "branch": kind, "order": order, "names": names, "factors": fs,
+            "values": {str(k): v for k, v in vals.items()}, "ops": [list(op) for op in ops[:len(res)]]}
+    expr = "check_history %s 0%%Q %s %s" % (cbool(strict), clist([cdens(f, vals, fvalue[f["name"]], False) for f in fs]),
+                                           clist([chop(vals, op, r) for op, r in zip(ops, res)]))
+    return Case(expr=expr, meta=meta, cell="poly/history/%s/%s/order%d" % (shape, kind, order), kind="EXACT", impl_fail=fail, signature=sig)
+
+
 def guarded(fn, gv, *a, **k):
     """a crash of the driver on a generated input is itself a failing input (the code raised where the builder expects none)"""
     try:
@@ -798,6 +976,16 @@ def run(ctx):
                 c = guarded(stacked_case, "stacked", ctx, cuqi, shape, part, rng)
                 if c is not None:
                     cases.append(c)
+    hist_cells = {}
+    for shape in HSHAPES:
+        for kind in HKINDS:
+            for order in (0, 1):
+                for _ in range(ctx.n(1, 5)):
+                    c = guarded(history_case, "history", ctx, cuqi, strict, shape, kind, order, rng)
+                    if c is not None:
+                        cases.append(c)
+                        hist_cells[kind] = hist_cells.get(kind, 0) + 1
+    ctx.note("branching histories per reduction branch: %s" % hist_cells)
     for which in ("fn", "unset"):
         for _ in range(ctx.n(60, 400)):
             cases.append(guarded(dens_level_case, "dens", ctx, cuqi, strict, rng, which))
@@ -1004,6 +1192,12 @@ def _rebuild(ctx, m):
 def oracle(ctx, meta):
     """re-check the property itself on the implementation for one stored case (poly family)"""
     m = meta.get("meta", meta)
+    if m.get("family") == "poly" and m.get("variant") == "history":
+        cuqi, names, fs, vals, facs = _rebuild(ctx, m)
+        total = sum(factor_value_py(f, vals) for f in fs)
+        ops = [tuple(op) for op in m["ops"]]
+        res = run_history(cuqi, cuqi.distribution.JointDistribution(*facs), names, vals, ops)
+        return history_oracle(ops, res, total)[0]
     if m.get("family") != "poly" or m.get("variant") not in ("joint", "prelik", "dens", "stacked"):
         return None
     cuqi, names, fs, vals, facs = _rebuild(ctx, m)
@@ -1037,6 +1231,26 @@ def replay(ctx, meta):
     if m.get("witness"):
         import cuqi
         print("witness:", witness_extra_kw(cuqi))
+        return 0
+    if m.get("family") == "poly" and m.get("variant") == "history":
+        cuqi, names, fs, vals, facs = _rebuild(ctx, m)
+        total = sum(factor_value_py(f, vals) for f in fs)
+        print("variables:", {names[k]: v for k, v in vals.items()})
+        for f in fs:
+            print("  factor %s | %s : value at the complete assignment %d" % (names[f["name"]], [names[j] for j in cond_vars_py(f["slots"])], factor_value_py(f, vals)))
+        print("joint log-density at the complete assignment (plain Python):", total)
+        ops = [tuple(op) for op in m["ops"]]
+        res = run_history(cuqi, cuqi.distribution.JointDistribution(*facs), names, vals, ops)
+        nobj = 0
+        for op, r in zip(ops, res):
+            if op[0] == "cond":
+                nobj += 1
+                print("  object %d := object %d conditioned on %s -> %s" % (nobj, op[1], [name_of(names, k) for k, _ in op[2]["kw"]],
+                      "RAISED" if r is None else "kind %d parameters %s _constant %s" % (r[0], [name_of(names, p_) for p_ in r[1]], r[2])))
+            else:
+                print("  object %d .logd(%s) -> implementation %s ; property expects %s%s" % (
+                    op[1], [names[j] for j in op[2]["args"]] + ["%s=" % name_of(names, k) for k, _ in op[2]["kw"]],
+                    "RAISED" if r is None else r, total, "" if r == total else "   <-- DIFFERS"))
         return 0
     if m.get("family") != "poly" or m.get("variant") not in ("joint", "prelik", "dens"):
         print(json.dumps(m, indent=1)[:4000])
